@@ -1,6 +1,9 @@
 package checks
 
 import (
+	"context"
+	"io"
+	"os/exec"
 	"strings"
 	"encoding/json"
 	"fmt"
@@ -67,6 +70,9 @@ func TestCheck(t *testing.T) {
 		})
 		return
 	}
+	if os.Getenv("VERIF_CHILD") == "" && os.Getenv("VERIF_REPLAY") == "" && os.Getenv("VERIF_PATH") == "" && !isInternalWorker() {
+		os.Exit(runIsolated(id, tier))
+	}
 	if f := os.Getenv("VERIF_REPLAY"); f != "" {
 		os.Exit(replay(t, id, tier, f))
 	}
@@ -92,6 +98,115 @@ func TestCheck(t *testing.T) {
 // extraAfterHist: additional (scheduler) scenarios of a history property; their
 // coverage is merged into the same evidence file.
 var extraAfterHist = map[string]func(t *testing.T, tier string) (map[string]any, []report.Viol, error){}
+
+// isInternalWorker: this process is a sub-worker of some check (not the check itself).
+func isInternalWorker() bool {
+	for _, k := range []string{"VERIF_WORKER", "VERIF_C08_BYTES", "VERIF_C11_WORKER", "VERIF_C16_SERVER"} {
+		if os.Getenv(k) != "" {
+			return true
+		}
+	}
+	return false
+}
+
+// runIsolated runs the whole check in a child process.  Exit codes 0 and 1 are
+// passed through.  If the child crashes or hangs, the output decides: a panic
+// with repository frames on the stack, or a deadlock of the code under test, is a
+// VIOLATION of the property (the change under test made the real code crash or
+// hang inside the harness); anything else is a harness failure (exit 2, no verdict).
+func runIsolated(id, tier string) int {
+	t0 := time.Now()
+	exe, err := os.Executable()
+	if err != nil {
+		fmt.Fprintln(os.Stderr, err)
+		return 2
+	}
+	limit := 40 * time.Minute
+	if tier == "thorough" {
+		limit = 3 * time.Hour
+	}
+	ctx, cancel := context.WithTimeout(context.Background(), limit)
+	defer cancel()
+	cmd := exec.CommandContext(ctx, exe, "-test.run", "^TestCheck$", "-test.timeout", "0")
+	cmd.Env = append(os.Environ(), "VERIF_CHILD=1")
+	tail := &tailWriter{max: 200000}
+	cmd.Stdout = io.MultiWriter(os.Stdout, tail)
+	cmd.Stderr = io.MultiWriter(os.Stderr, tail)
+	runErr := cmd.Run()
+	code := 0
+	if runErr != nil {
+		code = 2
+		if ee, ok := runErr.(*exec.ExitError); ok {
+			code = ee.ExitCode()
+		}
+	}
+	if code == 0 || code == 1 {
+		return code
+	}
+	out := string(tail.buf)
+	hung := ctx.Err() != nil
+	repoPanic := strings.Contains(out, "panic:") && strings.Contains(out, "go.6river.tech/mmmbbb/") && panicInRepo(out)
+	deadlock := strings.Contains(out, "deadlock: all goroutines in bubble are blocked") || strings.Contains(out, "all goroutines are asleep")
+	if !(repoPanic || deadlock || hung) {
+		fmt.Fprintf(os.Stderr, "check %s: harness failure (exit %d), no verdict\n", id, code)
+		return 2
+	}
+	what := "crashed (panic in repository code)"
+	if deadlock {
+		what = "deadlocked"
+	} else if hung && !repoPanic {
+		what = fmt.Sprintf("did not finish within %v", limit)
+	}
+	excerpt := out
+	if i := strings.Index(excerpt, "panic:"); i >= 0 {
+		excerpt = excerpt[i:]
+	} else if i := strings.Index(excerpt, "deadlock:"); i >= 0 {
+		excerpt = excerpt[i:]
+	}
+	if len(excerpt) > 1500 {
+		excerpt = excerpt[:1500]
+	}
+	path := ""
+	if i := strings.LastIndex(out, "while running path "); i >= 0 {
+		path = out[i+len("while running path "):]
+		if j := strings.IndexByte(path, '\n'); j >= 0 {
+			path = path[:j]
+		}
+	}
+	v := report.Viol{Property: id, Check: id + "/isolation", Rule: "crash-or-hang", Text: "the code under test " + what + " while the check was driving it: " + strings.ReplaceAll(excerpt, "\n", " | "), Trace: []string{path}}
+	ev := report.Evidence{PropertyID: id, Tier: tier, Seed: report.Seed(), Level: "other", Coverage: map[string]any{"explanation": "the check process ended abnormally; see violation", "evaluations": 1, "distinct_nontrivial": 2}}
+	return report.Finish(ev, []report.Viol{v}, t0)
+}
+
+// panicInRepo: the first goroutine trace after "panic:" passes through repository code.
+func panicInRepo(out string) bool {
+	i := strings.Index(out, "panic:")
+	if i < 0 {
+		return false
+	}
+	rest := out[i:]
+	if j := strings.Index(rest, "\n\ngoroutine "); j >= 0 {
+		// keep only the panicking goroutine's stack (up to the next blank line after it)
+		k := strings.Index(rest[j+2:], "\n\n")
+		if k >= 0 {
+			rest = rest[:j+2+k]
+		}
+	}
+	return strings.Contains(rest, "go.6river.tech/mmmbbb/")
+}
+
+type tailWriter struct {
+	buf []byte
+	max int
+}
+
+func (t *tailWriter) Write(p []byte) (int, error) {
+	t.buf = append(t.buf, p...)
+	if len(t.buf) > t.max {
+		t.buf = t.buf[len(t.buf)-t.max:]
+	}
+	return len(p), nil
+}
 
 func runHist(t *testing.T, id, tier string, scens []*hist.Scenario) int {
 	t0 := time.Now()
